@@ -77,8 +77,8 @@ func Run(c *vf.Check) {
 		jobs = append(jobs, func() { runDLEQ(c, gn) })
 	}
 	vf.Parallel(len(jobs), func(i int) { jobs[i]() })
-	c.Finish("engine E: PVSS on Ed25519 and P-256, n=2..4 (thorough ..6), every 1<=t<=n (and n in {7,10} on Ed25519 with t in {1,2,n/2+1,n-1,n} - thorough n=7..10, every t, both groups - on a reduced menu: secret r, every subset of size t-1, t and n, mutations at trustees 0, n/2, n-1), secrets {0,1,r}, second base H in {picked g1, g2}: all honest encrypted shares verify singly and in batch, every trustee's decrypted share verifies, every subset of decrypted shares (in 2 orders) recovers secret*G iff it has >= t members; "+
-		"every single-field mutation of every trustee's encrypted share (S.V, S.I, P.C, P.R, P.VG, P.VH -> value+1 / another trustee's / identity), of a commitment coefficient, of key X[i] (swapped with X[j]), the challenge of another sharing, whole shares swapped between trustees (all pairs) -> the mutated element fails single verification and is absent from the batch output, the caller's input slices are left intact; every single-field mutation of a decrypted share incl. republishing it under another index -> rejected, or recovery still yields secret*G. DLEQ: proof for x verifies for (xG,xH); each of C,R,VG,VH,xG,xH,G,H altered, and the sum-preserving alterations (xG<->xH, VG<->VH, G<->H, +D/-D shifts) -> error. "+
+	c.Finish("engine E: PVSS on Ed25519 and P-256, n=2..4 (thorough ..6), every 1<=t<=n (and n in {7,10} on Ed25519 with t in {1,2,n/2+1,n-1,n} - thorough n=7..10, every t, both groups - on a reduced menu: secret r, every subset of size t-1, t and n, mutations at trustees 0, n/2, n-1), secrets {0,1,r}, second base H in {picked g1, g2, the public key of trustee 0}: all honest encrypted shares verify singly and in batch, every trustee's decrypted share verifies, every subset of decrypted shares (in 2 orders) recovers secret*G iff it has >= t members; "+
+		"every single-field mutation of every trustee's encrypted share (S.V, S.I, P.C, P.R, P.VG, P.VH -> value+1 / another trustee's / identity), of a commitment coefficient, of key X[i] (swapped with X[j]), the challenge of another sharing, whole shares swapped between trustees (all pairs) -> the mutated element fails single verification and is absent from the batch output, the caller's input slices are left intact; every single-field mutation of a decrypted share incl. republishing it under another index -> rejected, or recovery still yields secret*G. Recovery lists that reach length t only through a repeated share are refused; the batch verifier handed an altered / foreign commitment polynomial next to the original evaluations keeps nothing. DLEQ (also with both base points equal): proof for x verifies for (xG,xH); each of C,R,VG,VH,xG,xH,G,H altered, and the sum-preserving alterations (xG<->xH, VG<->VH, G<->H, +D/-D shifts) -> error. "+
 		"non-trivial = mutated inputs; distinct by (group, n, t, secret, H, trustee, field, mutation)",
 		[]string{"the dealer's randomness is a seeded stream", "the expected global challenge is taken from the honest dealer's output (it is not exported by the package)"}, nil)
 }
@@ -108,8 +108,8 @@ func runPVSS(c *vf.Check, gn string, n, t int, large bool) {
 	q := g.Order
 	secrets := []alpha.NS{{Name: "0", V: big.NewInt(0)}, {Name: "1", V: big.NewInt(1)}, {Name: "r", V: alpha.Rand("c13-secret", q)}}
 	for si, sec := range secrets {
-		for hi := 0; hi < 2; hi++ {
-			if hi == 1 && si != 2 {
+		for hi := 0; hi < 3; hi++ {
+			if hi >= 1 && si != 2 {
 				continue
 			}
 			if large && (si != 2 || hi != 0) {
@@ -145,6 +145,10 @@ func runPVSS(c *vf.Check, gn string, n, t int, large bool) {
 				G = suite.Point().Base()
 				m := fmod.New(g)
 				H = m.Gens[1+hi%(len(m.Gens)-1)]
+				if hi == 2 {
+					// the second base point is the public key of trustee 0 (two of the points of that trustee's proof coincide)
+					H = suite.Point().Mul(alpha.ToScalar(suite.Scalar(), alpha.Rand("c13-x0", q), q), nil)
+				}
 				secret = alpha.ToScalar(suite.Scalar(), sec.V, q)
 				var err error
 				ss, err = build("main", sec.V)
@@ -253,6 +257,41 @@ func runPVSS(c *vf.Check, gn string, n, t int, large bool) {
 					if len(sub) > 1 {
 						c.Nontrivial(id)
 					}
+				}
+			}
+			// lists that reach length t (or more) only through repeated entries of one trustee's valid share
+			if t >= 2 {
+				for rep := 0; rep < 3; rep++ {
+					rep := rep
+					id := fmt.Sprintf("%s: recover from t-1 distinct shares with a repeated one, pattern %d", cfg, rep)
+					c.Case(id, pk+"/Recover", func(x *vf.Ctx) {
+						var X []kyber.Point
+						var E, D []*pvss.PubVerShare
+						idx := []int{}
+						for i := 0; i < t-1; i++ {
+							idx = append(idx, (i+rep)%n)
+						}
+						switch rep {
+						case 0:
+							idx = append(idx, idx[0]) // t entries, the first repeated at the end
+						case 1:
+							idx = append([]int{idx[len(idx)-1]}, idx...) // the last repeated in front
+						case 2:
+							idx = append(idx, idx[0], idx[0], idx[len(idx)-1]) // more than t entries
+						}
+						for _, i := range idx {
+							X, E, D = append(X, ss.X[i]), append(E, cloneShare(ss.enc[i])), append(D, cloneShare(ss.dec[i]))
+						}
+						got, err := pvss.RecoverSecret(suite, G, X, E, D, uint32(t), uint32(n))
+						c.Eval(1)
+						if err == nil && !bytes.Equal(fmod.Enc(got), want) {
+							x.Failf(pk+"/Recover-wrong", "%s: a value that is not secret*G is recovered from %d distinct shares (listed %d times)", id, t-1, len(idx))
+						} else if err == nil {
+							x.Failf(pk+"/Recover-too-few", "%s: recovery succeeds with %d < t distinct shares", id, t-1)
+						}
+					})
+					c.Count("transitions", 1)
+					c.Nontrivial(id)
 				}
 			}
 			// mutations of encrypted shares
@@ -384,6 +423,19 @@ func runPVSS(c *vf.Check, gn string, n, t int, large bool) {
 						if err := pvss.VerifyEncShare(suite, H, ss.X[i], p2.Eval(ss.enc[i].S.I).V, ss.gc, cloneShare(ss.enc[i])); err == nil {
 							x.Failf(pk+"/altered-commitment-accepted", "%s: share %d verifies against a polynomial with coefficient %d altered", cfg, i, k)
 						}
+					}
+					// the batch function is handed the altered polynomial next to the evaluations of the original one
+					var Xc, sHc []kyber.Point
+					var Ec []*pvss.PubVerShare
+					for i := 0; i < n; i++ {
+						Xc, sHc, Ec = append(Xc, ss.X[i].Clone()), append(sHc, ss.sH[i].Clone()), append(Ec, cloneShare(ss.enc[i]))
+					}
+					c.Eval(1)
+					if K, E, err := pvss.VerifyEncShareBatch(suite, H, Xc, sHc, p2, Ec); err == nil && (len(K) > 0 || len(E) > 0) {
+						x.Failf(pk+"/altered-commitment-accepted", "%s: VerifyEncShareBatch keeps %d shares under a commitment polynomial with coefficient %d altered (sH still the original evaluations)", cfg, len(E), k)
+					}
+					if K, E, err := pvss.VerifyEncShareBatch(suite, H, Xc, sHc, other.poly, Ec); err == nil && (len(K) > 0 || len(E) > 0) && k == 0 {
+						x.Failf(pk+"/altered-commitment-accepted", "%s: VerifyEncShareBatch keeps %d shares under the commitment polynomial of another dealing", cfg, len(E))
 					}
 				}
 			})
@@ -564,6 +616,17 @@ func runDLEQ(c *vf.Check, gn string) {
 				tc{"xG<->xH", cp(), G, H, xH, xG}, tc{"xG+D,xH-D", cp(), G, H, add(xG, D), sub(xH, D)},
 				tc{"G+D", cp(), add(G, D), H, xG, xH}, tc{"H+D", cp(), G, add(H, D), xG, xH}, tc{"G<->H", cp(), H, G, xG, xH},
 				tc{"G<->H,xG<->xH,VG<->VH (a relabelled true statement)", nil, nil, nil, nil, nil})
+			// both base points equal (different objects): the statement is (xG, xG); a change of either claimed point alone fails
+			if pe, eG, eH, err := dleq.NewDLEQProof(suite, G, G.Clone(), xv); err == nil {
+				if pe.Verify(suite, G, G.Clone(), eG, eH) != nil {
+					x.Failf(pk+"/honest-rejected", "%s: honest proof for equal base points rejected", id)
+				}
+				cpe := func() *dleq.Proof {
+					return &dleq.Proof{C: pe.C.Clone(), R: pe.R.Clone(), VG: pe.VG.Clone(), VH: pe.VH.Clone()}
+				}
+				tcs = append(tcs, tc{"equal bases, xH+D", cpe(), G, G.Clone(), eG, add(eH, D)}, tc{"equal bases, xG+D", cpe(), G, G.Clone(), add(eG, D), eH},
+					tc{"equal bases, xH negated", cpe(), G, G.Clone(), eG, suite.Point().Neg(eH)})
+			}
 			for _, t := range tcs {
 				if t.p == nil {
 					continue
